@@ -79,7 +79,8 @@ func checkC06(p *Program, r *Result) {
 	// ---- a, b: Close
 	if fn := p.lookupFunc(pkgMcap, "Writer.Close"); fn != nil {
 		fname := funcName(fn)
-		calls := orderedCalls(p, fn)
+		calls := deepCalls(p, fn, 3)
+		region := regionOf(p, fn, 3)
 		idx := func(name string) int {
 			for i, c := range calls {
 				if c.name == name {
@@ -124,7 +125,7 @@ func checkC06(p *Program, r *Result) {
 			// the checksum value must be what is stored into DataEnd.DataSectionCRC
 			sumCall, _ := calls[iSum].in.(*ssa.Call)
 			flows := false
-			for _, st := range fieldStores(fn, "DataEnd", "DataSectionCRC") {
+			for _, st := range regionStores(region, "DataEnd", "DataSectionCRC") {
 				if st.Val == ssa.Value(sumCall) {
 					flows = true
 				}
@@ -140,7 +141,7 @@ func checkC06(p *Program, r *Result) {
 				r.violated("C06.a", fname, "data CRC", p.pos(calls[iSum].in.Pos()), "DataEnd.DataSectionCRC is not the running checksum read in Close")
 			case iFlush >= 0 && !(iFlush < iSum):
 				r.violated("C06.a", fname, "data CRC", p.pos(calls[iSum].in.Pos()), "the data checksum is read before the last chunk is flushed; the chunk's bytes would be missing from it")
-			case between || !instrDominates(calls[iSum].in, calls[iEnd].in):
+			case between || !deepDominates(calls[iSum], calls[iEnd]):
 				r.violated("C06.a", fname, "data CRC", p.pos(calls[iSum].in.Pos()), "a sink write lies between reading the data checksum and writing the DataEnd record")
 			default:
 				r.held("C06.a", fname, "data CRC", p.pos(calls[iSum].in.Pos()), "flush < Checksum() < WriteDataEnd with no sink write in between")
@@ -148,7 +149,7 @@ func checkC06(p *Program, r *Result) {
 		}
 		if iReset < 0 || iEnd < 0 || iSummary < 0 {
 			r.violated("C06.b", fname, "CRC reset", p.pos(fn.Pos()), "no ResetCRC between DataEnd and the summary section; the summary CRC would cover the data section as well")
-		} else if iEnd < iReset && iReset < iSummary && instrDominates(calls[iReset].in, calls[iSummary].in) && instrDominates(calls[iEnd].in, calls[iReset].in) {
+		} else if iEnd < iReset && iReset < iSummary && deepDominates(calls[iReset], calls[iSummary]) && deepDominates(calls[iEnd], calls[iReset]) {
 			r.held("C06.b", fname, "CRC reset", p.pos(calls[iReset].in.Pos()), "WriteDataEnd < ResetCRC < writeSummarySection")
 		} else {
 			r.violated("C06.b", fname, "CRC reset", p.pos(calls[iReset].in.Pos()), "ResetCRC must come after the DataEnd record and before the first summary write (found order: DataEnd at "+p.pos(calls[iEnd].in.Pos())+", reset at "+p.pos(calls[iReset].in.Pos())+")")
@@ -158,7 +159,7 @@ func checkC06(p *Program, r *Result) {
 	// ---- c: WriteFooter
 	if fn := p.lookupFunc(pkgMcap, "Writer.WriteFooter"); fn != nil {
 		fname := funcName(fn)
-		calls := orderedCalls(p, fn)
+		calls := deepCalls(p, fn, 3)
 		var sinks []int
 		iSum := -1
 		for i, c := range calls {
@@ -171,7 +172,7 @@ func checkC06(p *Program, r *Result) {
 		switch {
 		case iSum < 0:
 			r.violated("C06.c", fname, "summary CRC", p.pos(fn.Pos()), "the footer's CRC field is not taken from the running checksum")
-		case len(sinks) < 2 || !(sinks[0] < iSum && iSum < sinks[len(sinks)-1]) || !instrDominates(calls[sinks[0]].in, calls[iSum].in):
+		case len(sinks) < 2 || !(sinks[0] < iSum && iSum < sinks[len(sinks)-1]) || !deepDominates(calls[sinks[0]], calls[iSum]):
 			r.violated("C06.c", fname, "summary CRC", p.pos(calls[iSum].in.Pos()),
 				"the summary CRC must cover the footer's opcode, length, summary_start and summary_offset_start: the checksum has to be read after those bytes were written to the sink and before the CRC bytes are written")
 		default:
